@@ -74,7 +74,7 @@ def gen_case(rng, tier, kind):
         params["times"] = times
     if op == "var":
         params["ddof"] = rng.choice([0, 1])
-    return dict(keycols=keycols, kinds=kinds, vals=vals, mask=mask, mk=mk, op=op, chunked=chunked, params=params)
+    return dict(keycols=keycols, kinds=kinds, vals=vals, mask=mask, mk=mk, op=op, chunked=chunked, params=params, threads=rng.random() < 0.35)
 
 
 def build(GroupBy, keycols, kinds, chunked):
@@ -128,13 +128,14 @@ def run_case(GroupBy, c):
     n = len(c["vals"])
     op, mask = c["op"], c["mask"]
     sel = selected_positions(n, mask)
-    sig = dict(level="api", op=op, mask=c["mk"], chunked=c["chunked"], timed=(op == "ema_timed"))
+    sig = dict(level="api", op=op, mask=c["mk"], chunked=c["chunked"], timed=(op == "ema_timed"), threads=bool(c.get("threads")))
     m = api.make_mask(mask)
     if c["mk"] == "series":
         m = pd.Series(m)
     try:
         gb = build(GroupBy, c["keycols"], c["kinds"], c["chunked"])
-        with api.strategy(chunk_threshold=4 if c["chunked"] else None):
+        # also with several kernel threads (rows_per_thread=2): the mask is then split between the threads
+        with api.strategy(chunk_threshold=4 if c["chunked"] else None, rows_per_thread=2 if c.get("threads") else None):
             masked = call_op(gb, op, c["vals"], m, c["params"])
     except Exception as e:  # noqa: BLE001
         return [dict(sig={**sig, "what": "raised"}, what=f"{op} with mask raised {e!r}"[:300], observed=repr(e)[:200], expected="a result")]
@@ -183,7 +184,7 @@ def run_case(GroupBy, c):
 
 def case_json(c):
     return dict(keys=c["keycols"], key_kinds=c["kinds"], values=[None if v is None else str(v) for v in c["vals"]], mask=c["mask"], mask_kind=c["mk"],
-                op=c["op"], chunked=c["chunked"], params=c["params"])
+                op=c["op"], chunked=c["chunked"], params=c["params"], threads=bool(c.get("threads")))
 
 
 def run(res, tier="quick", seed=0, widen=False):
@@ -218,6 +219,6 @@ def replay(payload):
     from groupby_lib import GroupBy
     c0 = payload["case"]
     c = dict(keycols=c0["keys"], kinds=c0["key_kinds"], vals=[None if v is None else Fraction(v) for v in c0["values"]],
-             mask=None if c0["mask"] is None else tuple(c0["mask"]), mk=c0["mask_kind"], op=c0["op"], chunked=c0["chunked"], params=c0["params"])
+             mask=None if c0["mask"] is None else tuple(c0["mask"]), mk=c0["mask_kind"], op=c0["op"], chunked=c0["chunked"], params=c0["params"], threads=c0.get("threads", False))
     v = run_case(GroupBy, c)
     return (not v), ("replay: " + (v[0]["what"] if v else "no violation on this input"))
